@@ -43,7 +43,8 @@ RULE = ("configuration matrix {output-file unset / new / existing file / existin
 
 DEPTH = ["L1", "L2", "L3", "L4", "par"]
 LONG = "L" * 300
-COMPONENTS = ["", ".", "..", "a", "a b", "\u00e4\u540d", "-x", ".hidden", "inner.txt", "out_dir", "a.tmp", LONG, "n\x00l"]
+COMPONENTS = ["", ".", "..", "a", "a b", "\u00e4\u540d", "-x", ".hidden", "inner.txt", "out_dir", "a.tmp", LONG, "n\x00l",
+              "cafe\u0301", "caf\u00e9", "\ufb01le", "File.TXT"]
 SMALL_COMPONENTS = ["", ".", "..", "a", "a b", "\u00e4", "inner.txt"]
 SEPS = ["/", "/", "//", "\\"]
 EDGE = ["", "", "/", "//", "\\"]
@@ -449,6 +450,16 @@ def _run_recv(case, sb):
             sb.put_file(would_be, b"old destination")
         elif case["pre"] == "dir":
             sb.put_dir(would_be)
+    # decoys: unrelated files of the user whose names are *other spellings* of the offered basename
+    # (Unicode normal forms, case, surrounding blanks).  The receiver said it writes to `seg`;
+    # none of these may be touched.
+    if placeable and case.get("decoys", True):
+        import unicodedata
+        for tname in {unicodedata.normalize("NFC", seg), unicodedata.normalize("NFD", seg),
+                      unicodedata.normalize("NFKC", seg), seg.lower(), seg.upper(), seg.strip()}:
+            if tname != seg and tname not in ("", ".", "..") and os_clean(tname) and "/" not in tname \
+                    and not os.path.lexists(base + "/" + tname):
+                sb.put_file(base + "/" + tname, b"decoy: another spelling of the offered name")
     if placeable and case.get("pretmp", "none") != "none" and not os.path.lexists(would_be + ".tmp"):
         if case["pretmp"] == "file":
             sb.put_file(would_be + ".tmp", b"precious, unrelated to the transfer")
